@@ -49,7 +49,8 @@ def step (s : Sess) (c : Cmd) : Sess × String × String :=
   let noout := c.nat "noout" 0 != 0
   match c.op with
   | "new" | "new_default" =>
-    let (st, t, m) := TreeSet.new m
+    -- `new_default`: the library's default constructor, i.e. the C library's allocator triple
+    let (st, t, m) := TreeSet.newT (if c.op == "new_default" then .libc else .conf) m
     let (sst, sp) : Stat × Option OrdMap := if c.fired > 0 then (.errAlloc, none) else (.ok, some [])
     let s' : Sess := { which := c.nat "cmp" 0, model := t, spec := sp, mem := m }
     (s', lineS (fmtStat sst) s', lineM (fmtStat st) s' 0)
